@@ -55,14 +55,14 @@ impl Monitor for C10 {
         ]
     }
     fn plan(&self, tier: Tier) -> Vec<String> {
-        let mut v: Vec<String> = (0..8).map(|i| format!("cat:{i}")).collect();
+        let mut v: Vec<String> = (0..10).map(|i| format!("cat:{i}")).collect();
         for i in 0..tier.pick(200, 4000) {
             v.push(format!("rnd:{i}"));
         }
         v
     }
     fn mandatory_buckets(&self, _tier: Tier) -> Vec<String> {
-        ["full_key_sweeps", "id_0_present", "id_9999999_present", "add_beyond_id_space_attempted", "name_queries"]
+        ["full_key_sweeps", "more_than_65536_terms", "binary_round_trip_swept", "obo_loader_swept", "id_0_present", "id_9999999_present", "add_beyond_id_space_attempted", "name_queries"]
             .iter()
             .map(|s| (*s).to_string())
             .collect()
@@ -90,6 +90,8 @@ impl Monitor for C10 {
         let mode = cat.unwrap_or_else(|| rng.below(8) as u32);
         let n = rng.urange(1, 40);
         match mode {
+            8 => want.extend((1..=70_000u32).rev()), // more terms than fit a 16-bit index, inserted in descending order
+            9 => want.extend((0..66_000u32).map(|i| i * 151 % 9_999_991)), // > 65 536 sparse ids
             0 => want.extend([0, 1, 9_999_999]),
             1 => want.extend((0..n as u32).map(|i| i + 1)), // dense from 1
             2 => want.extend((0..n as u32).map(|i| 9_999_999 - i)), // dense at the top
@@ -100,6 +102,11 @@ impl Monitor for C10 {
                     want.push(rng.range(0, 9_999_999) as u32);
                 }
             }
+        }
+        let with_roots = mode < 8 && rng.chance(1, 2);
+        if with_roots {
+            want.push(1);
+            want.push(118);
         }
         if rng.chance(1, 3) {
             want.push(0);
@@ -121,7 +128,7 @@ impl Monitor for C10 {
         };
         let mut names: BTreeMap<u32, String> = BTreeMap::new();
         for id in want.iter().chain(beyond.iter()) {
-            names.entry(*id).or_insert_with(|| format!("{} #{id}", gen_name(&mut rng, NameMode::Mixed)));
+            names.entry(*id).or_insert_with(|| if rng.chance(1, 12) { String::new() } else { format!("{} #{id}", gen_name(&mut rng, NameMode::Mixed)) });
         }
 
         // ---- records
@@ -225,11 +232,125 @@ impl Monitor for C10 {
             .set("genes", Json::Arr(f.recs[0].iter().map(|r| Json::s(format!("{}={}", r.id, r.name))).collect()))
             .set("omim", Json::Arr(f.recs[1].iter().map(|r| Json::s(format!("{}={}", r.id, r.name))).collect()))
             .set("orpha", Json::Arr(f.recs[2].iter().map(|r| Json::s(format!("{}={}", r.id, r.name))).collect()));
+        if added.len() > 65_536 {
+            out.bucket("more_than_65536_terms");
+        }
         if added.contains(&0) {
             out.bucket("id_0_present");
         }
         if added.contains(&9_999_999) {
             out.bucket("id_9999999_present");
+        }
+
+        // ---- the same key space through the binary round trip (needs the two root terms)
+        let reloaded: Option<Ontology> = if with_roots && beyond.iter().all(|b| !added.contains(b)) {
+            match crate::drive::as_bytes(&ont).ok().and_then(|b| crate::drive::from_bytes(&b).ok()) {
+                Some(o) => Some(o),
+                None => {
+                    out.bucket("round_trip_unavailable");
+                    None
+                }
+            }
+        } else {
+            None
+        };
+        if let Some(rt) = &reloaded {
+            out.bucket("binary_round_trip_swept");
+            let r = guard(|| {
+                let mut bad: Vec<String> = Vec::new();
+                for id in 0..=ID_SPACE {
+                    let got = rt.hpo(id);
+                    let exp = added.contains(&id);
+                    match got {
+                        Some(t) => {
+                            if !exp || t.id().as_u32() != id || t.name() != names[&id] {
+                                if bad.len() < 5 {
+                                    bad.push(format!("after as_bytes/from_bytes hpo({id}) returned term {} '{}' (added: {exp})", t.id().as_u32(), t.name()));
+                                }
+                            }
+                        }
+                        None => {
+                            if exp && bad.len() < 5 {
+                                bad.push(format!("after as_bytes/from_bytes hpo({id}) is None although the term was added"));
+                            }
+                        }
+                    }
+                }
+                let it: BTreeSet<u32> = rt.iter().map(|t| t.id().as_u32()).collect();
+                if it != added || rt.len() != added.len() {
+                    bad.push(format!("after as_bytes/from_bytes iteration yields {} terms, len() = {}, added {}", it.len(), rt.len(), added.len()));
+                }
+                bad
+            });
+            bump_n(&mut out.events, "Ontology::hpo", u64::from(ID_SPACE) + 1);
+            out.bucket("full_key_sweeps");
+            match r {
+                Ok(bad) => {
+                    out.comparisons += u64::from(ID_SPACE) + 1;
+                    for b in bad {
+                        out.violate("C10", "lookup_after_binary_round_trip", b);
+                    }
+                }
+                Err(p) => out.violate("C10", "panic:hpo_sweep_round_trip", format!("{} at {}", p.message, p.location)),
+            }
+        }
+
+        // ---- the same terms through the hp.obo loader (names with ": ", non-ASCII ...)
+        if with_roots && beyond.iter().all(|b| !added.contains(b)) && rng.chance(1, 2) {
+            let mut jf = FactSet::default();
+            jf.version = (2024, 3, 3);
+            for id in &added {
+                let mut name = names[id].clone();
+                if rng.chance(1, 4) {
+                    name = format!("EMG: {name}"); // the complete HPO has ~15 names of this form
+                }
+                jf.terms.push(TermFact { id: *id, name, obsolete: false, replaced_by: None });
+            }
+            crate::monitors::common::jaxable(&mut jf);
+            let jnames: BTreeMap<u32, String> = jf.terms.iter().map(|t| (t.id, t.name.clone())).collect();
+            let o = crate::jax::JaxOpts { shuffle: true, noise: rng.chance(1, 2), gene_header_style: rng.below(3) as u8 };
+            let transitive = rng.chance(1, 2);
+            match crate::drive::via_jax(&jf, &mut rng, &o, transitive, "c10") {
+                Ok(jo) => {
+                    out.bucket("obo_loader_swept");
+                    let r = guard(|| {
+                        let mut bad: Vec<String> = Vec::new();
+                        for id in 0..=ID_SPACE {
+                            let got = jo.hpo(id);
+                            let exp = added.contains(&id);
+                            match got {
+                                Some(t) => {
+                                    if (!exp || t.id().as_u32() != id || t.name() != jnames[&id]) && bad.len() < 5 {
+                                        bad.push(format!("loaded from hp.obo: hpo({id}) returned term {} '{}' (stanza present: {exp})", t.id().as_u32(), t.name()));
+                                    }
+                                }
+                                None => {
+                                    if exp && bad.len() < 5 {
+                                        bad.push(format!("loaded from hp.obo: hpo({id}) is None although a [Term] stanza '{}' exists", jnames[&id]));
+                                    }
+                                }
+                            }
+                        }
+                        let it: BTreeSet<u32> = jo.iter().map(|t| t.id().as_u32()).collect();
+                        if it != added || jo.len() != added.len() {
+                            bad.push(format!("loaded from hp.obo: iteration yields {} terms, len() = {}, stanzas {}", it.len(), jo.len(), added.len()));
+                        }
+                        bad
+                    });
+                    bump_n(&mut out.events, "Ontology::hpo", u64::from(ID_SPACE) + 1);
+                    out.bucket("full_key_sweeps");
+                    match r {
+                        Ok(bad) => {
+                            out.comparisons += u64::from(ID_SPACE) + 1;
+                            for b in bad {
+                                out.violate("C10", "lookup_after_obo_load", b);
+                            }
+                        }
+                        Err(p) => out.violate("C10", "panic:hpo_sweep_obo", format!("{} at {}", p.message, p.location)),
+                    }
+                }
+                Err(e) => out.violate("C10", "obo_load_failed", format!("{e}")),
+            }
         }
 
         // ---- complete key sweep
